@@ -99,3 +99,120 @@ Proof.
       eexists. split; [exact (get_put_same _ _ t _ Gt)|]. destruct t; cbn. repeat split.
     + injection H' as <- <-. cbv zeta. split; [reflexivity|]. split; [exact Eamb|reflexivity].
 Qed.
+
+(* ---- C02: set_data / rename re-key the node (group): found under the new id, no longer under the old one ---- *)
+From NT Require Import Lookup QueriesProofs HeapRemove.
+
+Lemma did_of_relabel group g f m : NoDup (ids f) -> NoDup group -> In m group ->
+  forall s, get_node m f = Some s -> did_of m (relabel group g f) = Some (i_did (g (rinfo s))).
+Proof.
+  intros ND NDg Hm s Gs. destruct (PreserveRelabel.relabel_rows g 0 group f ND NDg) as [Er Ei].
+  assert (ND' : NoDup (ids (relabel group g f))) by (now rewrite Ei).
+  apply (did_of_keys _ _ _ ND'). change (keys (relabel group g f)) with (keys_of (relabel group g f)). rewrite <- (rows_keys _ 0), Er.
+  destruct (get_node_spec m f s Gs) as (Ps & Rs). destruct (HeapRemove.row_of_node f 0 s Ps) as (r & Hr & E1 & E2).
+  apply in_map_iff. exists (rel_row group g r). split; [|now apply in_map].
+  unfold rel_row. rewrite E1, Rs.
+  replace (inb m group) with true by (symmetry; unfold inb; apply existsb_exists; exists m; split; [assumption|apply Nat.eqb_refl]).
+  unfold r_key, r_id, r_did. cbn [fst snd]. now rewrite E2.
+Qed.
+
+Theorem set_data_rekeys w ti n d e wc r w' : WFw w -> op_set_data w ti n d e wc = (Ok r, w') ->
+  exists t s did', get_tree w ti = Some t /\ get_node n (forest_of t) = Some s /\
+    sd_did' t (sd_new_data s d) e = Some did' /\
+    forall x, sd_new_did s did' = Some x ->
+      x <> rdid s /\
+      exists t', get_tree w' ti = Some t' /\
+        let cur := idx_get (rdid s) (idx t) in
+        let group := if Nat.ltb 1 (length cur) && (match wc with Some true => true | _ => false end) then cur else [n] in
+        In n group /\
+        forall m, In m group ->
+          did_of m (forest_of t') = Some x /\ In m (lk_find_all_did t' x) /\ ~ In m (lk_find_all_did t' (rdid s)).
+Proof.
+  intros W H. assert (W' := WFw_op_set_data w ti n d e wc W). rewrite H in W'. cbn [snd] in W'.
+  destruct (set_data_exact w ti n d e wc r w' H) as (t & s & did' & Gt & Gn & Ed & _ & X). cbv zeta in X. destruct X as [_ X].
+  exists t, s, did'. refine (conj Gt (conj Gn (conj Ed _))). intros x Ex. rewrite Ex in X.
+  assert (Nx : x <> rdid s).
+  { unfold sd_new_did in Ex. destruct did' as [e0|]; [|discriminate]. destruct (did_eqb e0 (rdid s)) eqn:E; [discriminate|].
+    injection Ex as <-. intros Y. rewrite Y, did_eqb_refl in E. discriminate. }
+  split; [exact Nx|]. destruct X as (t' & Gt' & F' & _ & _). exists t'. split; [exact Gt'|]. cbv zeta.
+  assert (Wt := WFw_tree w ti t W Gt). assert (Wt' := WFw_tree w' ti t' W' Gt').
+  destruct (get_node_spec n _ s Gn) as (Ps & Rs).
+  assert (Kn : In n (idx_get (rdid s) (idx t))) by (apply (idx_get_keys t n (rdid s) Wt); rewrite <- Rs; now apply keys_in).
+  set (group := if Nat.ltb 1 (length (idx_get (rdid s) (idx t))) && _ then _ else [n]) in *.
+  assert (Gin : In n group) by (unfold group; destruct (_ && _); [exact Kn|now left]).
+  assert (NDg : NoDup group) by (unfold group; destruct (_ && _); [now apply idx_group_nodup|constructor; [intros []|constructor]]).
+  assert (Live : forall m, In m group -> In m (ids (forest_of t))).
+  { intros m Hm. unfold group in Hm. destruct (_ && _).
+    - now apply (find_all_live t Wt m (rdid s)).
+    - destruct Hm as [<-|[]]. rewrite <- Rs. unfold ids. now apply in_map. }
+  split; [exact Gin|]. intros m Hm. assert (Lm := Live m Hm). destruct (get_node_complete m _ Lm) as (sm & Gm).
+  assert (Dm : did_of m (forest_of t') = Some x).
+  { rewrite F'. rewrite (did_of_relabel group _ _ m (wf_nodup t Wt) NDg Hm sm Gm). reflexivity. }
+  assert (Lm' : In m (ids (forest_of t'))).
+  { rewrite F'. destruct (PreserveRelabel.relabel_rows (fun inf => set_did_i x (match sd_new_data s d with Some x0 => set_dat_i x0 inf | None => inf end)) 0 group (forest_of t) (wf_nodup t Wt) NDg) as [_ Ei]. now rewrite Ei. }
+  refine (conj Dm (conj _ _)).
+  - apply (find_all_live t' Wt'). now split.
+  - intros Y. apply (find_all_live t' Wt') in Y. destruct Y as [_ Y]. congruence.
+Qed.
+
+(* ---- C04: the sibling shortcuts at the level of step (audit C04 F1, the D14-D16 area) ---- *)
+Lemma prepend_sibling_is_add w ti n d e k t p s :
+  get_tree w ti = Some t -> parent_of n (forest_of t) = Some p -> get_node n (forest_of t) = Some s ->
+  step w (OShort ti n SPrependSibling d e k) = step w (OAdd ti p d e (if typed t then rkind s else None) (BNode n)).
+Proof. intros Et Ep Es. cbn [step]. unfold op_shortcut. now rewrite Et, Ep, Es. Qed.
+
+Lemma append_sibling_is_add w ti n d e k t p s q0 i l :
+  get_tree w ti = Some t -> parent_of n (forest_of t) = Some p -> get_node n (forest_of t) = Some s ->
+  node_loc n (forest_of t) = Some (q0, i, l) ->
+  step w (OShort ti n SAppendSibling d e k) =
+  step w (OAdd ti p d e (if typed t then rkind s else None)
+               (match nth_error l (S i) with Some nx => BNode (rid nx) | None => BNone end)).
+Proof. intros Et Ep Es El. cbn [step]. unfold op_shortcut. now rewrite Et, Ep, El, Es. Qed.
+
+(* composed with the effect of add and the list law: the new node is a child of n's PARENT, directly before /
+   directly after n, carries n's kind in a typed tree (the kind argument of the call is not used), and
+   everything else is as add() leaves it *)
+Theorem sibling_shortcut_effect w ti n (after : bool) d e k r w' t :
+  WFw w -> get_tree w ti = Some t ->
+  step w (OShort ti n (if after then SAppendSibling else SPrependSibling) d e k) = (Ok r, w') ->
+  exists p s pq a c t' id,
+    parent_of n (forest_of t) = Some p /\ get_node n (forest_of t) = Some s /\
+    parent_path p (forest_of t) = Some pq /\ get_ch pq (forest_of t) = Some (a ++ s :: c) /\
+    get_tree w' ti = Some t' /\ r = [next w] /\
+    (e = Some id \/ e = None /\ calc_id (calc t) d = Some id) /\
+    let x := T (next w) (mk_info d id (default_kind t (if typed t then rkind s else None)) []) [] in
+    get_ch pq (forest_of t') = Some (if after then a ++ s :: x :: c else a ++ x :: s :: c) /\
+    ins_row (p, next w, rinfo x) (rows 0 (forest_of t)) (rows 0 (forest_of t')) /\
+    (forall tj, tj <> ti -> get_tree w' tj = get_tree w tj).
+Proof.
+  intros W Gt H. assert (Wt := WFw_tree w ti t W Gt).
+  assert (Hs : exists p s q0 i l, parent_of n (forest_of t) = Some p /\ get_node n (forest_of t) = Some s /\ node_loc n (forest_of t) = Some (q0, i, l)).
+  { cbn [step] in H. unfold op_shortcut in H. rewrite Gt in H. destruct (parent_of n (forest_of t)) as [p|]; [|destruct after; discriminate].
+    destruct (get_node n (forest_of t)) as [s|] eqn:Gn; [|destruct after; [destruct (node_loc n (forest_of t)) as [[[? ?] ?]|]|]; discriminate].
+    destruct (get_node_loc n _ s Gn) as (q0 & i & l & E & _). now exists p, s, q0, i, l. }
+  destruct Hs as (p & s & q0 & i & l & Gp & Gn & El).
+  destruct (node_loc_spec n _ q0 i l El) as (Gq0 & s' & Ns & Rs & Gn' & Ps). assert (s' = s) by congruence. subst s'.
+  destruct (nth_error_split l i Ns) as (a & c & -> & La).
+  set (kk := if typed t then rkind s else None) in *.
+  set (b := if after then (match nth_error (a ++ s :: c) (S i) with Some nx => BNode (rid nx) | None => BNone end) else BNode n).
+  assert (Hadd : step w (OAdd ti p d e kk b) = (Ok r, w')).
+  { rewrite <- H. unfold b, kk. destruct after; symmetry; [now apply (append_sibling_is_add w ti n d e k t p s q0 i _)|now apply prepend_sibling_is_add]. }
+  destruct (add_effect w ti p d e kk b r w' Hadd) as (t0 & t' & pq & ch & id & Gt0 & Gt' & Gpp & Gc & Hid & Er & _ & X). cbv zeta in X.
+  assert (t0 = t) by congruence. subst t0. destruct X as (Gc' & Ins & Oth).
+  assert (Ech : a ++ s :: c = ch).
+  { apply (siblings_are_children t n p q0 i _ ch Wt Gp El). unfold children_of. now rewrite Gpp. }
+  subst ch. exists p, s, pq, a, c, t', id. refine (conj Gp (conj Gn (conj Gpp (conj Gc (conj Gt' (conj Er (conj Hid _))))))). cbv zeta.
+  refine (conj _ (conj Ins Oth)). rewrite Gc'. f_equal.
+  assert (NDl : NoDup (map rid (a ++ s :: c))).
+  { assert (X := NoDup_child_list pq _ _ (wf_nodup t Wt) Gc). unfold ids in X. apply NoDup_map_inv with (f := fun y => y).
+    rewrite map_id. clear -X. revert X. generalize (a ++ s :: c). intros l0 X.
+    induction l0 as [|y l0 IH]; [constructor|]. cbn [flat_map map] in X. rewrite pre_unfold in X. cbn [map app] in X.
+    inversion X as [|? ? N1 N2]; subst. constructor.
+    - intros Y. apply N1. rewrite map_app. apply in_or_app. right. apply in_map_iff in Y. destruct Y as (z & Ez & Hz).
+      rewrite <- Ez. apply in_map. now apply in_pre_f_top.
+    - apply IH. rewrite map_app in N2. now apply NoDup_app_r in N2. }
+  destruct (sibling_positions a s c (T (next w) (mk_info d id (default_kind t kk) []) []) NDl) as [S1 S2].
+  unfold b. destruct after.
+  - rewrite <- La. exact S2.
+  - cbn [norm_before]. rewrite <- Rs. exact S1.
+Qed.
